@@ -378,6 +378,20 @@ func (p c11) kinds(c *core.Ctx, k int) {
 			}
 			return false
 		}},
+		{"case-member", "container t { choice ch { case k1 { leaf g { " + iff + " type string; } leaf y { type string; } } case k2 { leaf z { type string; } } } }", func(m *meta.Module) bool {
+			for _, d := range m.DataDefinitions() {
+				if ct, ok := d.(*meta.Container); ok && ct.Ident() == "t" {
+					for _, cd := range ct.DataDefinitions() {
+						if ch, ok := cd.(*meta.Choice); ok {
+							if k1 := ch.Cases()["k1"]; k1 != nil {
+								return has(k1.DataDefinitions(), "g")
+							}
+						}
+					}
+				}
+			}
+			return false
+		}},
 		{"anydata", "anydata g { " + iff + " description \"d\"; }", func(m *meta.Module) bool { return has(m.DataDefinitions(), "g") }},
 		{"uses", "grouping gr { leaf g { type string; } } uses gr { " + iff + " }", func(m *meta.Module) bool { return has(m.DataDefinitions(), "g") }},
 		{"augment", "container t { leaf z { type string; } } augment \"/t\" { " + iff + " leaf g { type string; } }", func(m *meta.Module) bool {
@@ -426,6 +440,12 @@ func (p c11) kinds(c *core.Ctx, k int) {
 			want := e.eval(assignMap(assign))
 			got := kc.check(m)
 			c.Shape("kind/%s/%v/%s", kc.name, want, sname)
+			if _, w := walk.Dump(m); w != nil {
+				// what is removed is gone for lookups by name too, what stays is found
+				for _, pr := range w.Problems {
+					c.Violate("kind/by-name/"+strings.SplitN(pr, ":", 2)[0]+"/"+kc.name, "%s guarded by %q, a,b,c=%03b (%s): %s\n%s", kc.name, ex, assign, sname, pr, text)
+				}
+			}
 			if got != want {
 				cls := "present-when-false"
 				if want {
@@ -580,7 +600,11 @@ func (p c11) deviations(c *core.Ctx, k int) {
 		if err != nil {
 			return nil, err
 		}
-		dm, _ := walk.Dump(m)
+		dm, w := walk.Dump(m)
+		for _, pr := range w.Problems {
+			// a node a deviation removed is gone for lookups by name too
+			c.Violate("deviation/by-name/"+strings.SplitN(pr, ":", 2)[0]+"/"+d.name, "%s\n%s", pr, hdr+base+extra)
+		}
 		var generic interface{}
 		if e := jsonUnmarshal(walk.JSON(dm), &generic); e != nil {
 			return nil, e
